@@ -9,6 +9,7 @@ import (
 	"fmt"
 	"io/ioutil"
 	"net"
+	"net/url"
 	"strconv"
 	"strings"
 	"time"
@@ -18,6 +19,8 @@ import (
 	"verif/simrt"
 	"verif/simrt/href"
 	"verif/simrt/simnet"
+
+	"github.com/baidu/go-lib/web-monitor/web_monitor"
 
 	"github.com/bfenetworks/bfe/bfe_basic"
 	"github.com/bfenetworks/bfe/bfe_http"
@@ -66,6 +69,7 @@ func runNode(focus string) func(s *simrt.Sim) {
 		}
 		e.conf = e.genConf(nconn)
 		var modules []string
+		trustReload := false
 		switch focus {
 		case "C07":
 			e.abort = true
@@ -85,6 +89,10 @@ func runNode(focus string) func(s *simrt.Sim) {
 			e.spoof = true
 			modules = []string{"mod_trust_clientip", "mod_header"}
 			e.conf.TrustRanges = [][2]string{{"10.77.0.0", "10.77.255.255"}, {"172.20.1.1", "172.20.1.1"}}
+			if trustReload = e.faults && tp.Chance(1, 2, "trust_reload"); trustReload {
+				// the node starts with another table (it trusts 10.78/16 and 172.20.1.2 instead)
+				e.conf.TrustRanges = [][2]string{{"10.78.0.0", "10.78.255.255"}, {"172.20.1.2", "172.20.1.2"}}
+			}
 			e.seenAddr = map[int]string{}
 			for ci := 0; ci < nconn; ci++ {
 				a := []string{"198.51.100.7", "10.77.3.4", "172.20.1.1", "172.20.1.2", "10.78.0.1"}[tp.Draw(5, "peer_ip")]
@@ -182,6 +190,21 @@ func runNode(focus string) func(s *simrt.Sim) {
 			return
 		}
 		e.n = n
+		if trustReload {
+			// the operator replaces the trusted-source table before the clients arrive; the data
+			// file keeps its version string (only the ranges change)
+			e.conf.TrustRanges = [][2]string{{"10.77.0.0", "10.77.255.255"}, {"172.20.1.1", "172.20.1.1"}}
+			writeModuleConf(n.root, e.conf)
+			h, err := n.srv.Monitor.WebHandlers.GetHandler(web_monitor.WebHandleReload, "mod_trust_clientip")
+			if err == nil {
+				err = h.(func(url.Values) error)(url.Values{})
+			}
+			if err != nil {
+				s.FailK("C29.reload", "trust-table-reload-failed", "reload of the trusted-source table: %v", err)
+				return
+			}
+			s.Fault("trust_table_reload")
+		}
 		e.realBackends()
 		s.Invariant(e.connInvariant)
 		if len(fwdFinish) > 0 {
